@@ -30,7 +30,8 @@ ASSUMPTIONS = ["all files of the generated tree are selected (no test / ignored 
                "method names are ASCII"]
 
 CLASS_NAMES = ["StringUtil", "DateUtils", "OrderService", "Futile", "UserServiceImpl", "Foo", "Bar", "Helper", "UTILS",
-               "Order", "ServiceLocator", "Utility", "Repo", "UserServiceUtils", "ServiceUtil", "UtilService"]
+               "Order", "ServiceLocator", "Utility", "Repo", "UserServiceUtils", "ServiceUtil", "UtilService",
+               "Contest", "Latest", "Backtests", "DateUtilsHelper"]      # production classes whose names merely end like the test suffixes; Util in the middle
 WORDS = ["get", "set", "is", "find", "user", "order", "name", "by", "id", "the", "of", "to", "parse", "build", "all",
          "value", "list", "string", "update", "create", "with", "and", "account", "price", "total", "handle"]
 ACRONYMS = ["XML", "JSON", "URL", "ID", "HTTP", "DTO", "IO"]
